@@ -13,7 +13,7 @@ import ast
 
 from .. import analysis
 from ..astutil import calls_in, call_name, where, kw, local_assignments, atoms_at
-from ..symtext import Expander
+from ..symtext import Expander, effect_calls
 from ..cfg import build_cfg, enclosing_handlers
 from ..model import AnalysisError, FuncInfo, unparse, walk_no_nested
 
@@ -54,6 +54,7 @@ def run(prog, rep):
         if len(loops) != 1:
             continue
         lp = loops[0]
+        ex = Expander(f, g, only_locations=True)
         esc = [x for x in ast.walk(lp.ast) if isinstance(x, (ast.Raise, ast.Break, ast.Return))]
         rep.check(not esc, "ESC-3", "%s: the per-file loop has no early exit" % f.short, "ok",
                   "the per-file loop contains %s: one bad file stops the run" % [type(x).__name__ for x in esc], where(f, esc[0]) if esc else f.where,
@@ -65,7 +66,7 @@ def run(prog, rep):
             for root in node.expr_roots():
                 for c in calls_in(root):
                     fn = call_name(c)
-                    if _harmless(c, f, lp):
+                    if _harmless(ex.expand(c, node), f, lp) or _unfailing_helper(prog, f, c):
                         continue
                     hs = enclosing_handlers(g, node)
                     ok = any(any(cn in ("Exception", "BaseException", "*") for cn in hn.info["classes"])
@@ -74,11 +75,11 @@ def run(prog, rep):
                     rep.check(ok, "ESC-3", "%s: %s guarded" % (f.short, fn), "inside try/except Exception",
                               "%s(...) in the per-file loop of %s is not inside a catch-all handler: a file that makes it fail stops the whole run"
                               % (fn, f.short), where(f, c), witness="an empty / non-XML / unconvertible file in the directory")
-        rep.floor("ESC-3", n_guarded, 3, "failing calls in the loop of %s" % f.short)
+        rep.floor("ESC-3", n_guarded, 1, "failing calls in the loop of %s" % f.short)
         for h in [x for x in ast.walk(lp.ast) if isinstance(x, ast.ExceptHandler)]:
             inner_try = [x for x in h.body if isinstance(x, ast.Try)]
-            reports = any(isinstance(c.func, ast.Attribute) and c.func.attr == "write" and isinstance(c.func.value, ast.Name)
-                          and c.func.value.id in f.params for c in calls_in(h))
+            reports = any(_is_report_write(ex.expand(c), f) for c in calls_in(h)) or \
+                any(_unfailing_helper(prog, f, c) for c in calls_in(h))
             rep.check(reports or inner_try, "ESC-3", "%s: handler at line %d reports" % (f.short, h.lineno), "report.write / nested conversion",
                       "an except clause neither reports nor continues with a guarded conversion", where(f, h))
 
@@ -119,47 +120,64 @@ def run(prog, rep):
     for m in SCRIPTS:
         mod = prog.module_of(m)
         dirpos = {}        # function name -> indexes of its output directory parameters
-        for fname in ("run_rdf_export", "run_conversion"):
-            f = mod.functions.get(fname)
-            if f is None:
-                continue
-            rep.saw_function(f)
-            x = Expander(f)
-            sinks = []
-            for c in calls_in(f.node):
-                if isinstance(c.func, ast.Attribute) and c.func.attr in ("write_to_file", "write_file"):
-                    path_arg = c.args[0] if c.func.attr == "write_to_file" else (c.args[1] if len(c.args) > 1 else None)
-                    sinks.append((c, path_arg))
-            rep.floor("PROV-9", len(sinks), 1, "output paths in %s" % f.short)
-            dirs = set()
-            for c, path_arg in sinks:
-                shape = _out_path_shape(x.expand(path_arg), f) if path_arg is not None else None
-                txt = x.text(path_arg) if path_arg is not None else "?"
-                rep.check(shape is not None and shape[0] is not None, "PROV-9", "%s: %s writes into an output directory" % (f.short, c.func.attr), txt[:70],
-                          "output path `%s` is not os.path.join(<output directory parameter>, ...)" % txt[:90], where(f, c),
-                          witness="outputs are written next to (or over) the input files")
-                rep.check(shape is not None and shape[1], "PROV-9", "%s: %s output named by the input's base name without extension" % (f.short, c.func.attr),
-                          "splitext(basename(path))[0]",
-                          "the output file name `%s` is not `<constant> %% os.path.splitext(os.path.basename(<input>))[0]`: inputs with different base "
-                          "names can map to one output (or path separators leak in)" % txt[:90], where(f, c),
-                          witness="rec.day1.xml and rec.day2.xml both become rec.rdf")
-                if shape is not None and shape[0] is not None:
-                    dirs.add(shape[0])
-            # directories handed on to a sibling function's directory parameter
-            for c in calls_in(f.node):
-                if isinstance(c.func, ast.Name) and c.func.id in dirpos:
-                    callee = mod.functions[c.func.id]
-                    for i in dirpos[c.func.id]:
-                        if i < len(c.args):
-                            a = c.args[i]
-                            ok = isinstance(a, ast.Name) and a.id in f.params
-                            rep.check(ok, "PROV-9", "%s: %s gets a directory parameter" % (f.short, c.func.id), unparse(a),
-                                      "%s passes `%s` as output directory of %s" % (f.short, unparse(a), c.func.id), where(f, c))
-                            if ok:
-                                dirs.add(a.id)
-            dirpos[fname] = sorted(f.params.index(d) for d in dirs if d in f.params)
+        n_sinks = 0
+        checked = set()
+        for _round in range(4):
+            changed = False
+            for fname, f in sorted(mod.functions.items()):
+                if fname == "main":
+                    continue
+                x = Expander(f, inline=prog)
+                sinks = []
+                for c in calls_in(f.node):
+                    if isinstance(c.func, ast.Attribute) and c.func.attr in ("write_to_file", "write_file"):
+                        path_arg = c.args[0] if c.func.attr == "write_to_file" else (c.args[1] if len(c.args) > 1 else None)
+                        sinks.append((c, path_arg))
+                dirs = set()
+                for c, path_arg in sinks:
+                    shape = _out_path_shape(x.expand(path_arg), f) if path_arg is not None else None
+                    txt = x.text(path_arg) if path_arg is not None else "?"
+                    param_path = isinstance(path_arg, ast.Name) and path_arg.id in f.params and x.text(path_arg) == path_arg.id
+                    if (fname, id(c)) not in checked:
+                        checked.add((fname, id(c)))
+                        n_sinks += 1
+                        rep.saw_function(f)
+                        if param_path:
+                            # the path is handed in: judged at the callers (the parameter is an output *path* parameter)
+                            dirpos.setdefault(fname + "#path", []).append(f.params.index(path_arg.id))
+                            continue
+                        rep.check(shape is not None and shape[0] is not None, "PROV-9", "%s: %s writes into an output directory" % (f.short, c.func.attr), txt[:70],
+                                  "output path `%s` is not os.path.join(<output directory parameter>, ...)" % txt[:90], where(f, c),
+                                  witness="outputs are written next to (or over) the input files")
+                        rep.check(shape is not None and shape[1], "PROV-9", "%s: %s output named by the input's base name without extension" % (f.short, c.func.attr),
+                                  "splitext(basename(path))[0]",
+                                  "the output file name `%s` is not `<constant> %% os.path.splitext(os.path.basename(<input>))[0]`: inputs with different base "
+                                  "names can map to one output (or path separators leak in)" % txt[:90], where(f, c),
+                                  witness="rec.day1.xml and rec.day2.xml both become rec.rdf")
+                    if shape is not None and shape[0] is not None:
+                        dirs.add(shape[0])
+                # directories handed on to a sibling function's directory parameter
+                for c in calls_in(f.node):
+                    if isinstance(c.func, ast.Name) and c.func.id in dirpos and c.func.id != fname:
+                        for i in dirpos[c.func.id]:
+                            if i < len(c.args):
+                                a = c.args[i]
+                                ok = isinstance(a, ast.Name) and a.id in f.params
+                                if (fname, id(c), i) not in checked:
+                                    checked.add((fname, id(c), i))
+                                    rep.check(ok, "PROV-9", "%s: %s gets a directory parameter" % (f.short, c.func.id), unparse(a),
+                                              "%s passes `%s` as output directory of %s" % (f.short, unparse(a), c.func.id), where(f, c))
+                                if ok:
+                                    dirs.add(a.id)
+                new = sorted(f.params.index(d) for d in dirs if d in f.params)
+                if new and new != dirpos.get(fname):
+                    dirpos[fname] = sorted(set(dirpos.get(fname, [])) | set(new))
+                    changed = True
+            if not changed:
+                break
+        rep.floor("PROV-9", n_sinks, 1, "writer calls in %s" % m)
         f = prog.func(m + ".main")
-        x = Expander(f)
+        x = Expander(f, inline=prog)
         n_rc = 0
         for c in calls_in(f.node):
             if not (isinstance(c.func, ast.Name) and c.func.id == "run_conversion"):
@@ -207,7 +225,7 @@ def run(prog, rep):
     cf = prog.func("tools.converters.format_converter.FormatConverter._convert_file")
     rep.saw_function(cd)
     rep.saw_function(cf)
-    x = Expander(cd)
+    x = Expander(cd, inline=prog)
     ind, outd = cd.params[1], cd.params[2]
     IN = "os.path.join(%s, '')" % ind
     want = "os.path.join(os.path.dirname(os.path.dirname(%s)), os.path.basename(os.path.dirname(%s)) + '_' + %s)" % (IN, IN, cd.params[4])
@@ -217,17 +235,20 @@ def run(prog, rep):
     rep.check(len(implicit) == 1 and x.text(implicit[0].ast.value, implicit[0]) == want, "FC-1", "implicit output directory differs from the input directory", "ok",
               "the implicit output directory is no longer <parent>/<input dir name>_<format>: %s" % [x.text(n.ast.value, n) for n in implicit], cd.where,
               witness="outputs written into the input directory")
-    calls = [c for c in calls_in(cd.node) if isinstance(c.func, ast.Attribute) and c.func.attr == "_convert_file"]
-    ok = len(calls) == 2
-    for c in calls:
-        a0, a1 = x.text(c.args[0]), x.text(c.args[1])
-        n0 = set(y.id for y in ast.walk(x.expand(c.args[0])) if isinstance(y, ast.Name))
-        e1 = x.expand(c.args[1])
+    effs = effect_calls(prog, cd, lambda c: isinstance(c.func, ast.Attribute) and c.func.attr == "_convert_file" and len(c.args) >= 2)
+    ok = len(effs) == 2
+    shown = []
+    for e in effs:
+        c = e.call
+        a0 = unparse(c.args[0])
+        n0 = set(y.id for y in ast.walk(c.args[0]) if isinstance(y, ast.Name))
+        e1 = c.args[1]
         first = e1.args[0] if isinstance(e1, ast.Call) and call_name(e1) == "os.path.join" and e1.args else None
         n1 = set(y for y in [getattr(z, "id", None) for z in ast.walk(first)] if y) if first is not None else set()
+        shown.append((a0[:60], unparse(e1)[:60]))
         ok = ok and a0.startswith("os.path.join(") and ind in n0 and outd not in n0 and outd in n1
     rep.check(ok, "FC-1", "convert_dir passes (input path, output path) pairs", "ok",
-              "_convert_file is not called with (path in input dir, path in output dir): %s" % [(x.text(c.args[0])[:60], x.text(c.args[1])[:60]) for c in calls], cd.where)
+              "_convert_file is not called with (path in input dir, path in output dir): %s" % shown, cd.where)
     inp, outp = cf.params[1], cf.params[2]
     fx = Expander(cf)
     for c in calls_in(cf.node):
@@ -251,31 +272,44 @@ def _harmless(c, f, lp):
         recv = c.func.value
         if c.func.attr == "write" and isinstance(recv, ast.Name) and recv.id in f.params:
             return True
-        if c.func.attr == "absolute" and isinstance(recv, ast.Name) and isinstance(lp.ast.target, ast.Name) and recv.id == lp.ast.target.id:
+        if c.func.attr == "absolute" and isinstance(recv, ast.Name) and lp is not None and isinstance(lp.ast.target, ast.Name) and recv.id == lp.ast.target.id:
             return True
         if c.func.attr == "format" and isinstance(recv, ast.Constant) and isinstance(recv.value, str):
             return True
     return False
 
 
-def _direct_globs(fnode, name):
+def _is_glob_call(c, x):
+    """<path>.glob('pat') / .rglob('pat'), also through a local alias of the bound method (search = P.rglob if r else P.glob)"""
+    if not (isinstance(c, ast.Call) and c.args and isinstance(c.args[0], ast.Constant) and isinstance(c.args[0].value, str)):
+        return False
+    if isinstance(c.func, ast.Attribute) and c.func.attr in ("glob", "rglob"):
+        return True
+    if isinstance(c.func, ast.Name) and x is not None:
+        from ..astutil import value_cases
+        cases = [e0 for e0, _ in value_cases(x.expand(c.func))]
+        return bool(cases) and all(isinstance(e0, ast.Attribute) and e0.attr in ("glob", "rglob") for e0 in cases)
+    return False
+
+
+def _direct_globs(fnode, name, x=None):
     out = set()
     for n in walk_no_nested(fnode):
         if isinstance(n, ast.Assign) and isinstance(n.targets[0], ast.Name) and n.targets[0].id == name:
             for c in calls_in(n.value):
-                if isinstance(c.func, ast.Attribute) and c.func.attr in ("glob", "rglob") and c.args and isinstance(c.args[0], ast.Constant):
+                if _is_glob_call(c, x):
                     out.add(c.args[0].value)
         if isinstance(n, ast.Expr) and isinstance(n.value, ast.Call) and isinstance(n.value.func, ast.Attribute) and n.value.func.attr == "extend" \
                 and unparse(n.value.func.value) == name:
             for c in calls_in(n.value):
-                if isinstance(c.func, ast.Attribute) and c.func.attr in ("glob", "rglob") and c.args and isinstance(c.args[0], ast.Constant):
+                if _is_glob_call(c, x):
                     out.add(c.args[0].value)
     return out
 
 
 def _list_globs(f, name, depth=0):
     """glob patterns whose matches end up in list `name` of function f (through tuple results of module level helpers)."""
-    out = _direct_globs(f.node, name)
+    out = _direct_globs(f.node, name, Expander(f, only_locations=False))
     if depth > 2:
         return out
     for n in walk_no_nested(f.node):
@@ -325,10 +359,36 @@ def _fresh_dir(e, f, depth=0):
     if isinstance(d, ast.Call) and depth < 2:
         return _fresh_dir(d, f, depth + 1)
     if isinstance(d, ast.Name):
-        roots = local_assignments(f.node, d.id)
+        rx = Expander(f)
+        roots = [rx.expand(r) if not isinstance(r, ast.AugAssign) else r for r in local_assignments(f.node, d.id)]
         good = bool(roots) and all(unparse(r) == "os.getcwd()" or (isinstance(r, ast.Subscript) and isinstance(r.slice, ast.Constant) and r.slice.value == "-o")
                                    for r in roots)
         return good, "root %s = %s" % (d.id, [unparse(r) for r in roots])
     if unparse(d) == "os.getcwd()":
         return True, "cwd"
     return False, "dir=%s" % unparse(d)[:40]
+
+
+def _is_report_write(c, f):
+    return isinstance(c, ast.Call) and isinstance(c.func, ast.Attribute) and c.func.attr == "write" and isinstance(c.func.value, ast.Name) \
+        and c.func.value.id in f.params
+
+
+def _unfailing_helper(prog, f, c, depth=0):
+    """a call of a module level private helper all of whose own failing calls sit in catch-all handlers (it cannot raise)"""
+    if not (isinstance(c.func, ast.Name) and c.func.id.startswith("_") and c.func.id in f.module.functions) or depth > 2:
+        return False
+    h = f.module.functions[c.func.id]
+    g = build_cfg(h)
+    hx = Expander(h, g, only_locations=True)
+    if any(isinstance(y, ast.Raise) for y in walk_no_nested(h.node)):
+        return False
+    for node in g.nodes:
+        for root in node.expr_roots():
+            for c2 in calls_in(root):
+                if _harmless(hx.expand(c2, node), h, None) or _unfailing_helper(prog, h, c2, depth + 1):
+                    continue
+                hs = enclosing_handlers(g, node)
+                if not any(any(cn in ("Exception", "BaseException", "*") for cn in hn.info["classes"]) for hh in hs for k2, hn in hh.succ if k2 == "except"):
+                    return False
+    return True
